@@ -5,7 +5,7 @@ From Coq Require Import List Arith Bool Lia Permutation NArith.
 From Conductor Require Import Model.Loader Model.Planner Model.Exec Proofs.ListFacts.
 Import ListNotations.
 
-(* what the executor assumes about a plan; established for the planner's output in Proofs/PlannerProofs.v *)
+(* what the executor assumes about a plan; established for the planner's output in Proofs/PlannerThm.v (plan_wf) and, for every project the loader accepts, in Proofs/Compose.v (composed_wf) *)
 Definition wf_plan (p : plan) : Prop :=
   (forall o, o < length (p_ops p) -> forall d, In d (exe_deps p o) -> d < o) /\
   (forall o, o < length (p_ops p) -> NoDup (exe_deps p o)) /\
